@@ -39,7 +39,11 @@ def step (args : List String) : String :=
         let stuck := s.badSweeps > 0
         -- the first owned window contains an evaluation (every group is due), except in the lost wake-up scenario
         let live := if early == "1" then 0 else 1
-        s!"locks={locks} unlocks={unlocks} gap={if stuck then "stuck" else "0"} live={live} pace=ok prelock=0 burst=ok" ++
+        -- the incident group g0 was put into before the loops started is the one its next result belongs to
+        -- (manageEvalLoop and the request loop read the group records' LastEval and nothing else: no event of this
+        -- model is an operation of the incident model)
+        let inc := if (kv rest "groups").getD "0" == "0" then "-" else "same"
+        s!"locks={locks} unlocks={unlocks} gap={if stuck then "stuck" else "0"} live={live} pace=ok prelock=0 burst=ok inc={inc}" ++
           (if stuck then " ~specviol=D12" else "")
     | _, _ => "bad-op"
   | _ => "bad-op"
